@@ -433,71 +433,12 @@ func (e *Engine) loopEnter(st *State, fr *Frame, b *ssa.BasicBlock, li *loopInfo
 	}
 	// havoc
 	ms := e.loopMods(fr.fn, li)
-	if ms.all {
-		e.havocAll(st)
-		st.taint["loop havoc all: "+strings.Join(ms.why, "; ")] = true
-	}
-	for c, s := range ms.comps {
-		if ms.all && c != "$alloc" {
-			continue
+	e.applyModSet(st, ms, func(v ssa.Value) *Val {
+		if r, ok := fr.vals[v]; ok {
+			return r
 		}
-		n := e.freshName("loop$" + strings.Trim(c, "|"))
-		st.declare(n, s)
-		if c == "$alloc" {
-			// allocation only grows
-			old := e.allocGet(st)
-			qi := quoteSym("q$r")
-			st.assume(fmt.Sprintf("(forall ((%s Int)) (=> (select %s %s) (select %s %s)))", qi, old, qi, n, qi))
-		}
-		st.heap[c] = n
-		st.ghost["$sort:"+c] = s
-	}
-	if !ms.all {
-		for c, bases := range ms.fields {
-			s := ms.fsort[c]
-			h := e.heapGet(st, c, s)
-			inner := strings.TrimSuffix(strings.TrimPrefix(s, "(Array Int "), ")")
-			for _, bv := range bases {
-				bt := e.get(st, bv)
-				ref := e.valTerm(bt)
-				fv := e.freshName("loop$" + strings.Trim(c, "|"))
-				st.declare(fv, inner)
-				h = sx("store", h, ref, fv)
-			}
-			e.heapSet(st, c, s, h)
-		}
-	}
-	for al := range ms.cells {
-		if v, ok := fr.vals[al]; ok && v.Addr != nil && v.Addr.Kind == aCell {
-			fv := e.freshVal(st, "loop$"+al.Comment, v.Addr.Cell.ty)
-			st.cells[v.Addr.Cell] = fv.T
-		}
-	}
-	for itv := range ms.iters {
-		if v, ok := fr.vals[itv]; ok && v.Iter != nil {
-			mt := v.Iter.m.Ty.Underlying().(*types.Map)
-			ks := e.sortOf(mt.Key())
-			nv := e.freshName("loop$visited")
-			st.declare(nv, fmt.Sprintf("(Array %s Bool)", ks))
-			st.heap[v.Iter.visited] = nv
-			nc := e.freshName("loop$count")
-			st.declare(nc, "Int")
-			st.assume(sx("<=", "0", nc))
-			st.heap[v.Iter.count] = nc
-			// sanity of the ghost state: visited keys are present; count bounded
-			_, _, mh, mhs := e.mapComps(mt)
-			ml, mls := e.mapLenComp()
-			qk := quoteSym("q$k")
-			hasArr := sx("select", e.heapGet(st, mh, mhs), v.Iter.m.T)
-			st.assume(fmt.Sprintf("(forall ((%s %s)) (=> (select %s %s) (select %s %s)))", qk, ks, nv, qk, hasArr, qk))
-			st.assume(sx("<=", nc, sx("select", e.heapGet(st, ml, mls), v.Iter.m.T)))
-		}
-	}
-	for g := range ms.ghosts {
-		n := e.freshName("loop$ghost$" + g)
-		st.declare(n, "Int")
-		st.ghost["g:"+g] = n
-	}
+		return e.get(st, v)
+	})
 	// phis
 	for _, in := range b.Instrs {
 		p, ok := in.(*ssa.Phi)
@@ -532,6 +473,79 @@ func (e *Engine) loopEnter(st *State, fr *Frame, b *ssa.BasicBlock, li *loopInfo
 		}
 	}
 	st.trace = append(st.trace, fmt.Sprintf("%s: loop %d arbitrary iteration", fr.fn.Name(), li.ordinal))
+}
+
+// applyModSet forgets everything a loop body / callback may modify.
+// resolve maps an SSA value (a base pointer defined outside the loop, an
+// Alloc, a Range iterator) to its current symbolic value.
+func (e *Engine) applyModSet(st *State, ms *modSet, resolve func(ssa.Value) *Val) {
+	if ms.all {
+		// unknown code runs in the loop: everything except objects still
+		// private to the verified function (their own modifications by the
+		// loop are havoc'd explicitly below)
+		e.havocAllKeepPrivate(st)
+		st.taint["loop havoc all: "+strings.Join(ms.why, "; ")] = true
+	}
+	for c, s := range ms.comps {
+		if strings.HasPrefix(strings.Trim(c, "|"), "P$") {
+			st.privClean = nil
+		}
+		n := e.freshName("loop$" + strings.Trim(c, "|"))
+		st.declare(n, s)
+		if c == "$alloc" {
+			// allocation only grows
+			old := e.allocGet(st)
+			qi := quoteSym("q$r")
+			st.assume(fmt.Sprintf("(forall ((%s Int)) (=> (select %s %s) (select %s %s)))", qi, old, qi, n, qi))
+		}
+		st.heap[c] = n
+		st.ghost["$sort:"+c] = s
+	}
+	{
+		for c, bases := range ms.fields {
+			s := ms.fsort[c]
+			h := e.heapGet(st, c, s)
+			inner := strings.TrimSuffix(strings.TrimPrefix(s, "(Array Int "), ")")
+			for _, bv := range bases {
+				bt := resolve(bv)
+				ref := e.valTerm(bt)
+				delete(st.privClean, ref)
+				fv := e.freshName("loop$" + strings.Trim(c, "|"))
+				st.declare(fv, inner)
+				h = sx("store", h, ref, fv)
+			}
+			e.heapSet(st, c, s, h)
+		}
+	}
+	for al := range ms.cells {
+		if v := resolveOpt(resolve, al); v != nil && v.Addr != nil && v.Addr.Kind == aCell {
+			fv := e.freshVal(st, "loop$"+al.Comment, v.Addr.Cell.ty)
+			st.cells[v.Addr.Cell] = fv.T
+		}
+	}
+	for itv := range ms.iters {
+		if v := resolveOpt(resolve, itv); v != nil && v.Iter != nil {
+			mt := v.Iter.m.Ty.Underlying().(*types.Map)
+			ks := e.sortOf(mt.Key())
+			nv := e.freshName("loop$visited")
+			st.declare(nv, fmt.Sprintf("(Array %s Bool)", ks))
+			st.heap[v.Iter.visited] = nv
+			nc := e.freshName("loop$count")
+			st.declare(nc, "Int")
+			st.assume(sx("<=", "0", nc))
+			st.heap[v.Iter.count] = nc
+			// sanity of the ghost state: visited keys are present; count bounded
+			_, _, mh, mhs := e.mapComps(mt)
+			ml, mls := e.mapLenComp()
+			qk := quoteSym("q$k")
+			hasArr := sx("select", e.heapGet(st, mh, mhs), v.Iter.m.T)
+			st.assume(fmt.Sprintf("(forall ((%s %s)) (=> (select %s %s) (select %s %s)))", qk, ks, nv, qk, hasArr, qk))
+			st.assume(sx("<=", nc, sx("select", e.heapGet(st, ml, mls), v.Iter.m.T)))
+		}
+	}
+	for g := range ms.ghosts {
+		e.ghostHavoc(st, g)
+	}
 }
 
 func (e *Engine) loopBack(st *State, fr *Frame, b *ssa.BasicBlock, li *loopInfo, predIdx int) {
